@@ -55,11 +55,11 @@ func nonDebug(in []ssa.Instruction) []ssa.Instruction {
 
 // ErrUse classifies how an error produced by a call is treated.
 type ErrUse struct {
-	Dropped      bool           // result discarded
-	Unchecked    bool           // value used but never compared with nil nor returned
-	SwallowedAt  *ssa.Return    // a non-failing return reachable from the err != nil edge
+	Dropped      bool            // result discarded
+	Unchecked    bool            // value used but never compared with nil nor returned
+	SwallowedAt  *ssa.Return     // a non-failing return reachable from the err != nil edge
 	CheckedAt    ssa.Instruction // the If that tests it
-	ReturnedOnly bool           // returned directly (tail call style)
+	ReturnedOnly bool            // returned directly (tail call style)
 }
 
 // errUse analyses one call.
